@@ -61,13 +61,45 @@ def _gauss(m, want_inverse=False):
     return rank, inv
 
 
+def _sparse_rank(m):
+    """exact rank over the constant field with sparse rows (dict column -> value)"""
+    rows = []
+    for r in m.a.tolist():
+        d = {j: v for j, v in enumerate(r) if not v.is_zero()}
+        if d:
+            rows.append(d)
+    rank = 0
+    pivots = {}          # pivot column -> normalised row
+    for d in rows:
+        # reduce by existing pivots
+        while d:
+            j = min(d)
+            p = pivots.get(j)
+            if p is None:
+                break
+            f = d[j]
+            for c, v in p.items():
+                nv = d.get(c, None)
+                nv = (-f * v) if nv is None else (nv - f * v)
+                if nv.is_zero():
+                    d.pop(c, None)
+                else:
+                    d[c] = nv
+        if d:
+            j = min(d)
+            inv = d[j].inverse()
+            pivots[j] = {c: v * inv for c, v in d.items()}
+            rank += 1
+    return rank
+
+
 def matrix_rank(m, tol=None, hermitian=False):
     m = _A(m)
     if m.ndim == 1:
         m = m.reshape(1, -1)
     if not _is_concrete(m):
         raise Unsupported("matrix_rank of a symbolic matrix")
-    return _gauss(m)[0]
+    return _sparse_rank(m)
 
 
 def inv(m):
